@@ -100,6 +100,8 @@ EXPR_TY = re.compile(r"\b(hir::Expr|hir::ExprId|tast::Expr|core::Expr|ast::ast::
 
 
 def r15_2(run, model, mir, reach):
+    if reach is None:
+        raise AnalysisIncomplete("R15.2 needs the type reachability computed by R15.1")
     run.rule("R15.2", "no expression/body-carrying type is reachable from the hashed interface (exports, hir_interface), so a "
                       "body-only edit cannot change the interface hash")
     n = 0
@@ -372,12 +374,12 @@ def r15_6(run, model, mir):
 
 def run(run, model):
     mir = Mir(run.facts)
-    reach = r15_1(run, model, mir)
-    r15_2(run, model, mir, reach)
-    r15_3(run, model, mir)
-    r15_4(run, model)
-    r15_5(run, model)
-    r15_6(run, model, mir)
+    reach = run.try_rule(r15_1, model, mir)
+    run.try_rule(r15_2, model, mir, reach)
+    run.try_rule(r15_3, model, mir)
+    run.try_rule(r15_4, model)
+    run.try_rule(r15_5, model)
+    run.try_rule(r15_6, model, mir)
     run.assume("serde_json serialisation of the reachable types is injective on values (outside the repository)")
     run.assume("R15.4 recognises pairwise checking written as nested loops or iterator closures over `<unit>.deps`; a refactor that "
                "first copies the pairs into another collection is reported for review rather than followed")
